@@ -9,7 +9,7 @@ From Coq Require Import String.
 From Coq Require Import List Bool Arith NArith ZArith.
 Import ListNotations.
 Require Import Str Rx RxFacts G_rx JunModel JunProofs TextModel TextProofs Memo MemoProofs.
-Require TotalProofs.
+Require TotalProofs TotalIp IpModel.
 
 Theorem C14_generated_patterns_are_non_nullable : all_sub_patterns_non_nullable = true.
 Proof. exact generated_patterns_non_nullable. Qed.
@@ -44,6 +44,14 @@ Theorem C14_secrets_stage_never_raises : forall orc reserved salt line lookup,
   end.
 Proof. exact TotalProofs.replace_matching_item_never_raises. Qed.
 
+(* the address stages: on an anonymizer whose memo satisfies the invariant (every state reachable from the constructors, C03) the IPv6 / IPv4 pass over
+   ANY line returns a line and an anonymizer satisfying the invariant again -- the parsers only produce numbers of the family's width (proved), the
+   patterns are non-nullable, the memo never refuses a write *)
+Theorem C14_address_stage_never_raises : forall (v6 undo : bool) (a : IpModel.anonymizer) (line : str),
+  TotalIp.WF (if v6 then 128 else 32)%nat a ->
+  exists a' out, anonymize_ip_line v6 undo a line = Done (a', out) /\ TotalIp.WF (if v6 then 128 else 32)%nat a'.
+Proof. exact TotalIp.anonymize_ip_line_never_raises. Qed.
+
 Theorem C14_anonymize_value_never_raises : forall orc raw lookup reserved salt,
   TotalProofs.table_bytes orc -> TotalProofs.table_bytes lookup ->
   match anonymize_value orc raw lookup reserved salt with
@@ -60,3 +68,4 @@ Print Assumptions C14_as_pattern_non_nullable.
 Print Assumptions C14_decryptable_values_are_classified_juniper.
 Print Assumptions C14_anonymize_value_never_raises.
 Print Assumptions C14_secrets_stage_never_raises.
+Print Assumptions C14_address_stage_never_raises.
